@@ -90,6 +90,9 @@ def strings(rng, n, thorough):
             '\u200b', '\ud7ff\ue000', '\x85', '\x1a']
     out += ['a' * 32767, 'a' * 32766, '中' * 10922, '中' * 10923, 'я' * 16383,
             'я' * 16384, 'я' * 20000, 'é' * 32767, '中' * 32767]
+    # chat components travel as this same type and may be much longer
+    # (262144 characters in the protocol): no limit of its own
+    out += ['a' * 32768, 'q' * 40000, 'é' * 70000, 'z' * 262144]
     pools = ['abc XYZ', 'éüñ', '€中文', '\U0001F600\U0001F4A9', '\x00\x01\x7f']
     for _ in range(n):
         L = rng.choice((0, 1, 2, 3, 5, 17, 60, 130, 300))
